@@ -150,6 +150,8 @@ def resolve(hs, obs):
     claims: dict[str, dict[str, list[int]]] = {}
     nproj = nshots = 0
     for i, (h, o) in enumerate(zip(hs, obs)):
+        if o["error"] and o.get("error_env"):
+            raise lib.Machinery(f"replay failed twice with an environment error (not a verdict): {o['error'][:600]}")
         bad, cl = emu_lib.compare(h, o)
         for b in bad:
             if b["kind"] == "machinery":
